@@ -34,6 +34,9 @@ type Env struct {
 	// TagKeys are the tag keys used as dimensions for iterator reads.
 	TagKeys []string
 	Logger  *zap.Logger
+	// TSILogSize, when > 0, is the tsi1 MaxIndexLogFileSize (small values make
+	// every write start a log-file compaction).
+	TSILogSize int64
 }
 
 // NewEnv prepares (but does not open) an environment rooted at dir.
@@ -75,6 +78,9 @@ func (e *Env) Open() error {
 		opts.Config.CompactFullWriteColdDuration = toml.Duration(1500 * time.Millisecond)
 	}
 	opts.Config.MaxConcurrentCompactions = 2
+	if e.TSILogSize > 0 {
+		opts.Config.MaxIndexLogFileSize = toml.Size(e.TSILogSize)
+	}
 	s.EngineOptions = opts
 	if e.Logger != nil {
 		s.WithLogger(e.Logger)
